@@ -243,6 +243,9 @@ func (st *State) mapFamsT(mt *types.Map) (dom, val, ln *Family) {
 	_, existed := st.fams["MV."+tn]
 	dom, val, ln = st.family("MD."+tn, []Sort{SInt, k}, SBool), st.family("MV."+tn, []Sort{SInt, k}, v), st.family("ML."+tn, []Sort{SInt}, SInt)
 	if !existed {
+		// the nil map has an empty domain and length 0
+		st.sc.emit("(assert (forall ((k %[2]s)) (! (not (%[1]s 0 k)) :pattern ((%[1]s 0 k)))))", sanitize("MD."+tn)+"@0", k)
+		st.sc.emit("(assert (= (%s 0) 0))", sanitize("ML."+tn)+"@0")
 		sym := sanitize("MV."+tn) + "@0"
 		switch mt.Elem().Underlying().(type) {
 		case *types.Pointer, *types.Map, *types.Signature:
@@ -319,6 +322,12 @@ func (st *State) updateFamWhere(f *Family, cond func(params []Term) Term, val fu
 	// previous version (so facts found for old-state terms carry forward)
 	st.sc.emit("(assert (forall (%s) (! (= %s %s) :pattern (%s) :pattern (%s))))", strings.Join(binders, " "), lhs.S, body.S, lhs.S, app(f.Res, old, params...).S)
 	st.heap[f.Name] = nv
+	if strings.HasPrefix(f.Name, "MD.") {
+		st.sc.emit("(assert (forall ((k %[2]s)) (! (not (%[1]s 0 k)) :pattern ((%[1]s 0 k)))))", nv, f.Args[1])
+	}
+	if strings.HasPrefix(f.Name, "ML.") {
+		st.sc.emit("(assert (= (%s 0) 0))", nv)
+	}
 }
 
 // ---------------------------------------------------------------------------
@@ -514,4 +523,19 @@ func (st *State) noteSubslice(sub, s, lo Term) {
 		return
 	}
 	st.sliceBase[sub.S] = sliceBaseInfo{Base: s, Delta: lo}
+}
+
+// mapRead: the value m[k] of a map in snapshot snap, with Go's semantics for absent keys (zero
+// value). It is a function symbol per (domain version, value version) with a definitional axiom,
+// so that quantified contract clauses over m[k] have an ite-free pattern.
+func (st *State) mapRead(snap map[string]string, mt *types.Map, m, k Term) Term {
+	d, v, _ := st.mapFamsT(mt)
+	ds, vs := st.symIn(snap, d.Name), st.symIn(snap, v.Name)
+	name := "MT." + shortTypeName(mt) + "@" + ds[strings.LastIndex(ds, "@")+1:] + "." + vs[strings.LastIndex(vs, "@")+1:]
+	if !st.sc.declared["fun:"+name] {
+		st.sc.declFun(name, []Sort{SInt, d.Args[1]}, v.Res)
+		st.sc.ensureSort(v.Res)
+		st.sc.emit("(assert (forall ((m Int) (k %[1]s)) (! (= (%[2]s m k) (ite (%[3]s m k) (%[4]s m k) %[5]s)) :pattern ((%[2]s m k)))))", d.Args[1], name, ds, vs, st.u().zero(v.Res).S)
+	}
+	return app(v.Res, name, m, k)
 }
